@@ -18,13 +18,16 @@ from . import lib
 
 META = {
     'level': 'other',
-    'technique': 'Lean 4 totality theorems for the modelled parsers (+ engine-level confinement theorems, hooked in) '
+    'technique': 'Lean 4 in-range (no index / slice panic) and fuel-adequacy theorems for the modelled parsers (+ engine-level confinement theorems, hooked in) '
                  'AND, as search support only, a seeded fixture-mutation fuzz loop over all 58 built-in filesystem extractors '
                  'run in-process under recover + 20 s watchdog + 512 MiB heap bound',
     'design_ref': 'DESIGN.md §5 C02',
-    'text': 'PARTIAL. Proved: the Lean models of the apk, gradle.lockfile, Gemfile.lock, dpkg, requirements.txt and package-lock parsers '
-            '(the C03 models) are total functions — they return a value on every byte string, so a model/implementation agreement can only '
-            'break by a Go panic; engine-level confinement theorems are added by the coordinator (ENGINE_THEOREMS). '
+    'text': 'PARTIAL (7 of 58 extractors modelled). Proved for the gradle.lockfile, Gemfile.lock, dpkg, requirements.txt, package-lock.json and Pipfile.lock models: every index and '
+            'slice the Go code performs (parts[i], m[1], source[idx+2:len-1], l[:len(l)-1], Version[4:i], …) is in range on EVERY input — the models carry failing '
+            'primitives (goIndex / goSliceI / goSlice) at those sites, so an unguarded index would break the proof; the apk parser has no such site (its totality is vacuous by '
+            'construction and not counted). Proved for the apk, dpkg and requirements record loops: fuel adequacy on arbitrary input (the iteration bound never ends the loop), '
+            'i.e. the models terminate in a number of iterations linear in the number of lines. Nil dereferences, nil-map writes, panics inside library calls, and time / memory '
+            'of the Go code are NOT modelled. Engine-level confinement: ENGINE_THEOREMS (Properties/C02Engine.lean). '
             'NOT proved: that the ~50 remaining extractors (third-party JSON/TOML/YAML/XML/SQLite/BoltDB/PE/ELF/zip decoders) never panic, hang or '
             'exhaust memory. For those the check only SEARCHES: c02gen runs every extractor of extractor/filesystem/list.All (58, asserted; the one '
             'that needs the network is skipped with that reason) on every fixture under its testdata directory (copied into a temp root, presented at '
@@ -48,9 +51,14 @@ ENGINE_THEOREMS = ['Scalibr.Walk.C02_confined', 'Scalibr.Walk.C02_confined_two',
 ENGINE_IMPORTS = ['Scalibr.Properties.C02Engine']
 # ---------------------------------------------------------------------------------------------------------------
 
-PARSER_THEOREMS = ['Scalibr.Parsers.C02_apk_total', 'Scalibr.Parsers.C02_gradle_total', 'Scalibr.Parsers.C02_gemfile_total',
-                   'Scalibr.Parsers.C02_dpkg_total', 'Scalibr.Parsers.C02_requirements_total', 'Scalibr.Parsers.C02_scan_lines_bounded',
-                   'Scalibr.Lockfiles.C02_packagelock_total', 'Scalibr.Lockfiles.C02_pipfile_total']
+# Parser theorems with content (lean/Scalibr/Properties/C02.lean): "every Go index / slice of the modelled code is in range on every input"
+# (the models use failing primitives goIndex / goSliceI / goSlice at the Go sites; `…Go_eq` lemmas) and fuel adequacy of the record loops on
+# arbitrary input. NOT listed: C02_apk_total — the apk parser has no indexing / slicing site, its totality statement is vacuous by construction.
+PARSER_THEOREMS = ['Scalibr.Parsers.C02_gradle_total', 'Scalibr.Parsers.C02_gemfile_total', 'Scalibr.Parsers.C02_dpkg_total',
+                   'Scalibr.Parsers.C02_requirements_total', 'Scalibr.Parsers.C02_index_can_fail',
+                   'Scalibr.Parsers.C02_apk_fuel_adequate', 'Scalibr.Parsers.C02_dpkg_fuel_adequate', 'Scalibr.Parsers.C02_requirements_fuel_adequate',
+                   'Scalibr.Parsers.C02_scan_lines_bounded',
+                   'Scalibr.Lockfiles.C02_packagelock_total', 'Scalibr.Lockfiles.C02_pipfile_total', 'Scalibr.Lockfiles.C02_packagelock_prefix_panics']
 THEOREMS = PARSER_THEOREMS + ENGINE_THEOREMS
 
 VIOLATING = ('panic', 'hang', 'oom', 'fatal', 'engine-panic', 'engine-hang', 'engine-err', 'nilpkg')
